@@ -120,8 +120,46 @@ structure AInfo where
   readEnd : Int
   deriving Repr, DecidableEq
 
-/-- first half of `add_polya_info`: trimming of `polya_exon_count` exons at the 3' end -/
+/-- the repaired `add_polya_info` (fix: external tail position on the retained exon): when BOTH polyA positions were
+    found (tested on the values before the shift: `both_found`), the shifted external position is cut down to the
+    shifted internal one – the removed exons are tail from the internal position on, the tail does not start later -/
+def clampA (oldInt oldExt newInt newExt : Int) : Int :=
+  if oldInt ≠ -1 ∧ oldExt ≠ -1 then min newExt newInt else newExt
+
+/-- mirror image for the polyT head: `max` -/
+def clampT (oldInt oldExt newInt newExt : Int) : Int :=
+  if oldInt ≠ -1 ∧ oldExt ≠ -1 then max newExt newInt else newExt
+
+/-- first half of `add_polya_info`: trimming of `polya_exon_count` exons at the 3' end (repaired code) -/
 def trimPolyA (st : AInfo) (a : Int) : Option AInfo :=
+  if a > 0 then do
+    let ia ← shiftPolya st.exons a st.info.internalPolyA
+    let ea ← shiftPolya st.exons a st.info.externalPolyA
+    let keep := st.exons.length - a.toNat
+    some { st with info := { st.info with internalPolyA := ia,
+                                          externalPolyA := clampA st.info.internalPolyA st.info.externalPolyA ia ea },
+                   exons := st.exons.take keep,
+                   readBlocks := st.readBlocks.take (st.readBlocks.length - a.toNat),
+                   cigarBlocks := st.cigarBlocks.take (st.cigarBlocks.length - a.toNat),
+                   exonsChanged := true }
+  else some st
+
+/-- second half: trimming of `polyt_exon_count` exons at the 5' end (on the already shortened lists; repaired code) -/
+def trimPolyT (st : AInfo) (t : Int) : Option AInfo :=
+  if t > 0 then do
+    let it ← shiftPolyt st.exons t st.info.internalPolyT
+    let et ← shiftPolyt st.exons t st.info.externalPolyT
+    some { st with info := { st.info with internalPolyT := it,
+                                          externalPolyT := clampT st.info.internalPolyT st.info.externalPolyT it et },
+                   exons := st.exons.drop t.toNat,
+                   readBlocks := st.readBlocks.drop t.toNat,
+                   cigarBlocks := st.cigarBlocks.drop t.toNat,
+                   exonsChanged := true }
+  else some st
+
+/-- the code before the repair: both positions are shifted independently (the external one keeps the length of the
+    aligned tail as an overhang past the retained exon: `external_shift_witness`) -/
+def trimPolyAOrig (st : AInfo) (a : Int) : Option AInfo :=
   if a > 0 then do
     let ia ← shiftPolya st.exons a st.info.internalPolyA
     let ea ← shiftPolya st.exons a st.info.externalPolyA
@@ -133,8 +171,7 @@ def trimPolyA (st : AInfo) (a : Int) : Option AInfo :=
                    exonsChanged := true }
   else some st
 
-/-- second half: trimming of `polyt_exon_count` exons at the 5' end (on the already shortened lists) -/
-def trimPolyT (st : AInfo) (t : Int) : Option AInfo :=
+def trimPolyTOrig (st : AInfo) (t : Int) : Option AInfo :=
   if t > 0 then do
     let it ← shiftPolyt st.exons t st.info.internalPolyT
     let et ← shiftPolyt st.exons t st.info.externalPolyT
@@ -160,7 +197,18 @@ def ainfoInit (exons rb cb : List Iv) (info : PolyAInfo) : Option AInfo :=
                              exonsChanged := false, readStart := f.1, readEnd := l.2 }
   | _, _ => none
 
-/-- `AlignmentInfo.add_polya_info` after `detect_polya` returned `info`, with a given `correct_read_info` -/
+/-- `AlignmentInfo.add_polya_info` after `detect_polya` returned `info`, with given trimming halves and a given
+    `correct_read_info` -/
+def addPolyaInfoGen (trimA trimT : AInfo → Int → Option AInfo)
+    (cri : Int → List Iv → PolyAInfo → Option (Int × Int))
+    (maxFake : Int) (exons rb cb : List Iv) (info : PolyAInfo) : Option AInfo := do
+  let st ← ainfoInit exons rb cb info
+  let (a, t) ← cri maxFake exons info
+  let st1 ← trimA st a
+  let st2 ← trimT st1 t
+  refreshEnds st2
+
+/-- the repaired trimming halves with a given `correct_read_info` -/
 def addPolyaInfoWith (cri : Int → List Iv → PolyAInfo → Option (Int × Int))
     (maxFake : Int) (exons rb cb : List Iv) (info : PolyAInfo) : Option AInfo := do
   let st ← ainfoInit exons rb cb info
@@ -171,5 +219,7 @@ def addPolyaInfoWith (cri : Int → List Iv → PolyAInfo → Option (Int × Int
 
 def addPolyaInfo := addPolyaInfoWith correctReadInfo
 def addPolyaInfoBuggy := addPolyaInfoWith correctReadInfoBuggy
+/-- `add_polya_info` before the repair of the external position (independent shifts) -/
+def addPolyaInfoOrigShift := addPolyaInfoGen trimPolyAOrig trimPolyTOrig correctReadInfo
 
 end IsoVerif.Model.C16
